@@ -203,7 +203,8 @@ func (msg *message) bodySection(item *imap.FetchItemBodySection) []byte {
 		if partial.Offset > int64(len(b)) {
 			return nil
 		}
-		if end > int64(len(b)) {
+		if end > int64(len(b)) || end < partial.Offset {
+			// also covers Offset+Size overflowing int64
 			end = int64(len(b))
 		}
 		b = b[partial.Offset:end]
